@@ -141,25 +141,20 @@ impl MT101 {
             let mut instructing = None;
             let mut ordering = None;
 
-            // Detect which Field 50 variant is present
-            if let Some(variant) = parser.detect_variant_optional("50") {
-                match variant.as_str() {
-                    "C" | "L" => {
-                        // Instructing party variants
+            // Sequence A may carry an instructing party (C/L) followed by an ordering customer
+            // (F/G/H); the option letter decides which one a field is
+            for _ in 0..2 {
+                match parser.detect_variant_optional("50").as_deref() {
+                    Some("C") | Some("L") if instructing.is_none() && ordering.is_none() => {
                         instructing =
                             parser.parse_optional_variant_field::<Field50InstructingParty>("50")?;
                     }
-                    "F" | "G" | "H" => {
-                        // Ordering customer variants
+                    Some(_) if ordering.is_none() => {
+                        // F/G/H, or a letter that is not allowed here (reported by the field parser)
                         ordering = parser
                             .parse_optional_variant_field::<Field50OrderingCustomerFGH>("50")?;
                     }
-                    _ => {
-                        // Any other option letter is not allowed here: report it instead of
-                        // guessing (a failed first guess used to consume and drop the field)
-                        ordering = parser
-                            .parse_optional_variant_field::<Field50OrderingCustomerFGH>("50")?;
-                    }
+                    _ => break,
                 }
             }
 
@@ -198,10 +193,23 @@ impl MT101 {
             let field_32b = parser.parse_field::<Field32B>("32B")?;
 
             // Transaction-level optional ordering parties
-            let instructing_party_tx =
-                parser.parse_optional_variant_field::<Field50InstructingParty>("50")?;
-            let ordering_customer_tx =
-                parser.parse_optional_variant_field::<Field50OrderingCustomerFGH>("50")?;
+            let mut instructing_party_tx = None;
+            let mut ordering_customer_tx = None;
+            for _ in 0..2 {
+                match parser.detect_variant_optional("50").as_deref() {
+                    Some("C") | Some("L")
+                        if instructing_party_tx.is_none() && ordering_customer_tx.is_none() =>
+                    {
+                        instructing_party_tx =
+                            parser.parse_optional_variant_field::<Field50InstructingParty>("50")?;
+                    }
+                    Some(_) if ordering_customer_tx.is_none() => {
+                        ordering_customer_tx = parser
+                            .parse_optional_variant_field::<Field50OrderingCustomerFGH>("50")?;
+                    }
+                    _ => break,
+                }
+            }
 
             let field_52 =
                 parser.parse_optional_variant_field::<Field52AccountServicingInstitution>("52")?;
